@@ -153,6 +153,9 @@ def generate(rng, kind, n):
             d = DT.gen_discinfo(rng)
             f, vs = rng.choice(list(DISCINFO.items()))
             cases.append({"kind": kind, "content": d, "where": "discinfo", "pos": [], "field": f, "value": rng.choice(vs)})
+    for i, c in enumerate(cases):
+        if i % 3 == 1:
+            c["dump_first"] = True          # derived from the index, so that the PRNG stream (and the other cases) stay as they were
     return cases
 
 
@@ -250,9 +253,22 @@ def impl(case):
     kind, where, pos, f, v = case["kind"], case["where"], case["pos"], case["field"], case["value"]
     content = case["content"]
     v = copy.deepcopy(v)
+
+    def first(o):
+        """dump_first: the still-valid object is written once before the field is corrupted (what validate() checks must not
+        be remembered from an earlier successful write)"""
+        if case.get("dump_first"):
+            try:
+                if kind == "treeinfo":
+                    o.dump(io.StringIO())
+                else:
+                    o.dumps()
+            except EXC:
+                pass
+        return o
     try:
         if kind == "composeinfo":
-            o = DC.build(content)
+            o = first(DC.build(content))
             if where == "compose":
                 setattr(o.compose, f, v)
             elif where == "release":
@@ -275,6 +291,7 @@ def impl(case):
             o, pool, ids = OI.build(content)
             for va, a, i in content["ops"]:
                 o.add(va, a, pool[i])
+            first(o)
             if where == "compose":
                 setattr(o.compose, f, v)
             elif f == "additional_variants!":
@@ -291,9 +308,10 @@ def impl(case):
                     o.add(*op)
                 except EXC:
                     pass
+            first(o)
             setattr(o.compose, f, v)
         elif kind == "treeinfo":
-            o = DT.build_treeinfo(content)
+            o = first(DT.build_treeinfo(content))
             if where in ("release", "tree", "media", "stage2", "base_product"):
                 setattr(getattr(o, where), f, v)
             elif where == "variant":
@@ -310,7 +328,7 @@ def impl(case):
             elif where == "checksums":
                 o.checksums.checksums[v] = ("sha256", "ab" * 32)
         else:
-            o = DT.build_discinfo(content)
+            o = first(DT.build_discinfo(content))
             setattr(o, f, v)
     except EXC as e:
         return ["build-error", type(e).__name__, str(e)[:120]]
